@@ -29,7 +29,9 @@ cargo $TOOLCHAIN test --offline "${FEATS[@]}" --test seeded_demo > /tmp/intake-$
 tail -3 /tmp/intake-$SID-without.log | sed 's/^/   /'
 git apply /tmp/intake-$SID.diff
 echo "== verdict: suite[$S1] demo-with rc=$RC_WITH demo-without rc=$RC_WITHOUT"
-case "$S1" in "105 passed 0 failed") ;; *) echo "REJECT: suite not green (expected 105 passed 0 failed)"; [ "${FORCE:-}" = 1 ] || exit 1;; esac
+P=$(echo "$S1" | awk '{print $1}'); F=$(echo "$S1" | awk '{print $3}')
+# 100 unit + 5 integration (+ 34 doc tests) must pass, none may fail
+if [ "${F:-1}" != "0" ] || [ "${P:-0}" -lt 105 ]; then echo "REJECT: suite not green ($S1)"; [ "${FORCE:-}" = 1 ] || exit 1; fi
 if [ "$PROP" = "C20" ]; then
   # compile witness: the demo must build only WITH the change
   [ $RC_WITH -eq 0 ] && [ $RC_WITHOUT -ne 0 ] || { echo "REJECT: C20 demo must compile with the change and fail to compile without"; exit 1; }
